@@ -24,6 +24,7 @@ EXPLANATION = (
     "last step of a successful evaluation. Does not decide: interference through a provider object the user shares between threads, "
     "sqlfluff/sqlparse internal caches."
     " R12.2 also judges memoising decorators (acceptable only on functions that compute from their arguments alone). R12.6 (= R15.1 / R15.2) scoped overrides live in the calling thread's own entry."
+    " R12.2 also covers augmented assignment on class-level containers, setattr, attributes reached through a dependency's module path, mutable default arguments (functions with evaluated-once defaults are not absorbed by the normaliser) and memo tables keyed by equality on functions whose answer depends on an argument's type."
 )
 RULE_TEXT = (
     "one obligation per registration site, exit path, store, and per mutation site found in the functions reachable from the "
